@@ -11,8 +11,20 @@ import (
 // description of the source, then CheckSum() of the source and of every stage
 // ("NOCS" = not a BarcodeIntCS, "E" = that Scale call failed; the chain stops there)
 func init() {
-	register("cs", func(a []string) string {
-		bc, err := encodeAny(a[1:], nil)
+	register("cs", func(a []string) string { return csChain(a, nil) })
+	// csc <scheme> <sizes> <encoder args...> : the same through the WithColor entry point
+	register("csc", func(a []string) string {
+		sch, ok := testSchemes[a[0]]
+		if !ok {
+			panic("unknown scheme")
+		}
+		return csChain(a[1:], &sch)
+	})
+}
+
+func csChain(a []string, scheme *barcode.ColorScheme) string {
+	{
+		bc, err := encodeAny(a[1:], scheme)
 		d := describe(bc, err)
 		if err != nil || bc == nil {
 			return d
@@ -38,5 +50,5 @@ func init() {
 			}
 		}
 		return d + " | " + strings.Join(out, " ")
-	})
+	}
 }
